@@ -152,7 +152,7 @@ fn run_c09<T>(c: &Case, tier: Tier) -> Chk<Pass> where T: Sc + yui::EucRing, for
     }
 }
 
-fn run_case(c: &Case, tier: Tier) -> Chk<Pass> { crate::dispatch_euc!(c.ty, run_c09(c, tier)) }
+fn run_case(c: &Case, tier: Tier) -> Chk<Pass> { if !TYPES.contains(&c.ty) { return discard("out-of-domain") } crate::dispatch_euc!(c.ty, run_c09(c, tier)) }
 
 impl Prop for C09 {
     type Case = Case;
@@ -171,5 +171,6 @@ impl Prop for C09 {
     }
     fn cases(tier: Tier) -> u32 { tier.pick(200_000, 3_000_000) }
     fn shards(_: Tier) -> usize { 16 }
+    fn fuzz_in_domain(c: &Case) -> bool { let (bits, deg) = c.spec.size(); bits <= 700 && deg <= 4 }
     fn run(case: &Case, ctx: &Ctx) -> Outcome { to_outcome(run_case(case, ctx.tier)) }
 }
